@@ -29,12 +29,13 @@ Proof. apply cut_none. apply dec_no47. Qed.
 
 Lemma rt_opus E mt pt ch : wf_fmt E false (FOpus pt ch) -> rt_ok E mt (FOpus pt ch) KOpus.
 Proof.
-  cbn [wf_fmt]. intros (Hd & [Hc1 Hc2]) rtpmap fm [= <-] [= <-]. unfold own_kind, own_ctx. cbn [fmt_pt].
+  cbn [wf_fmt]. intros (Hpt & [Hc1 Hc2] & Hd) rtpmap fm [= <-] [= <-]. unfold own_kind, own_ctx. cbn [fmt_pt].
   destruct (N.leb_spec ch 2) as [Hle|Hgt].
   - assert (Hch : ch = 1 \/ ch = 2) by lia. destruct Hch as [-> | ->]; cbn.
-    + split; [sel_tac Hd|split; [|nodup_tac]]. rewrite u31_48000. reflexivity.
-    + split; [sel_tac Hd|split; [|nodup_tac]]. rewrite u31_48000. reflexivity.
-  - cbn [fmt_rtpmap fmt_fmtp]. destruct (N.leb_spec ch 2); [lia|].
+    + split; [unfold select, is; cbn; reflexivity|split; [|nodup_tac]]. rewrite u31_48000. reflexivity.
+    + split; [unfold select, is; cbn; reflexivity|split; [|nodup_tac]]. rewrite u31_48000. reflexivity.
+  - destruct Hd as [Hd|Hd]; [lia|].
+    cbn [fmt_rtpmap fmt_fmtp]. destruct (N.leb_spec ch 2); [lia|].
     split; [|split].
     + cbn. sel_tac Hd.
     + cbn. rewrite u31_48000, u31_print by assumption. cbn.
